@@ -15,6 +15,7 @@ import PsV.Driver.C20
 import PsV.Driver.C11
 import PsV.Driver.C10
 import PsV.Driver.C06
+import PsV.Driver.C07
 open PsV.Driver
 
 def stateless (f : List String → String) : IO Unit := do
@@ -36,7 +37,8 @@ def drivers : List (String × IO Unit) :=
    ("C20", C20.run),
    ("C11", C11.run),
    ("C10", C10.run),
-   ("C06", C06.run)]
+   ("C06", C06.run),
+   ("C07", C07.run)]
 
 def main (args : List String) : IO UInt32 := do
   match args with
